@@ -23,14 +23,27 @@ package standard
 //@   ensures result == nil ==> attestationData.Target.Epoch == duty.slot / s.slotsPerEpoch
 //@   modifies nothing
 //@
+//@ // epoch of a slot as answered by the chain time service
+//@ spec func epochOf(slot phase0.Slot) phase0.Epoch
+//@
 //@ func (*Service).fetchValidatorIndices
 //@   requires s != nil && s.chainTime != nil && s.attested != nil && unheld(s.attestedMu)
 //@   requires validDuty(duty)
+//@   assumes call SlotToEpoch (e): e == epochOf(arg0)
 //@   loop 1
 //@     invariant -1 <= rangeindex && rangeindex < len(duty.validatorIndices)
 //@     invariant unheld(s.attestedMu)
 //@     invariant forall k int :: 0 <= k && k < len(validatorIndices) ==> inDuty(duty, validatorIndices[k])
+//@     invariant epoch == epochOf(duty.slot) && in(s.attested, epoch)
+//@     invariant forall k int :: 0 <= k && k < len(validatorIndices) ==> !in(old(s.attested[epochOf(duty.slot)]), validatorIndices[k]) && in(s.attested[epochOf(duty.slot)], validatorIndices[k])
+//@     invariant forall e phase0.Epoch, v phase0.ValidatorIndex :: in(old(s.attested[e]), v) ==> in(s.attested[e], v)
+//@     invariant forall j int :: 0 <= j && j <= rangeindex ==> in(s.attested[epochOf(duty.slot)], duty.validatorIndices[j])
 //@   ensures forall k int :: 0 <= k && k < len(result) ==> inDuty(duty, result[k])
+//@   // C01: a validator is handed on only if this very call marked it for the epoch (claim-once under attestedMu) ...
+//@   ensures forall k int :: 0 <= k && k < len(result) ==> !in(old(s.attested[epochOf(duty.slot)]), result[k]) && in(s.attested[epochOf(duty.slot)], result[k])
+//@   // ... marks are never removed here, and every validator of the duty is marked afterwards
+//@   ensures forall e phase0.Epoch, v phase0.ValidatorIndex :: in(old(s.attested[e]), v) ==> in(s.attested[e], v)
+//@   ensures forall j int :: 0 <= j && j < len(duty.validatorIndices) ==> in(s.attested[epochOf(duty.slot)], duty.validatorIndices[j])
 //@   ensures unheld(s.attestedMu)
 //@   modifies contents(s.attested), contents(s.attested[0])
 //@
@@ -83,5 +96,11 @@ package standard
 //@   at call attest#1: assert forall k int :: 0 <= k && k < len(arg3) ==> inDuty(duty, accountValidatorIndices[k])
 //@   at call attest#1: assert forall k int :: 0 <= k && k < len(arg3) ==> arg3[k] == validatingAccounts[accountValidatorIndices[k]] && arg3[k] != nil
 //@   at call attest#1: assert forall k int :: 0 <= k && k < len(arg3) ==> arg4[k] == duty.committeeIndices[pos(duty, accountValidatorIndices[k])] && arg5[k] == duty.validatorCommitteeIndices[pos(duty, accountValidatorIndices[k])] && arg6[k] == duty.committeeLengths[arg4[k]]
+//@   assumes call SlotToEpoch (e): e == epochOf(arg0)
 //@   // C01: refused data leads to no signing request
 //@   ensures calls(attest) == 0 ==> result1 != nil
+//@   // C01: only validators that this call newly marked for the epoch reach the signer ...
+//@   at call attest#1: assert forall k int :: 0 <= k && k < len(arg3) ==> !in(old(s.attested[epochOf(duty.slot)]), accountValidatorIndices[k])
+//@   // ... and whatever the outcome (success, failed fetch, failed signing or submission) the marks stay: nothing recent is un-marked
+//@   ensures forall e phase0.Epoch, v phase0.ValidatorIndex :: in(old(s.attested[e]), v) && e + 2 != epochOf(duty.slot) ==> in(s.attested[e], v)
+//@   ensures epochOf(duty.slot) + 2 != epochOf(duty.slot) ==> forall j int :: 0 <= j && j < len(duty.validatorIndices) ==> in(s.attested[epochOf(duty.slot)], duty.validatorIndices[j])
